@@ -2,8 +2,8 @@ SPECIFICATION Spec
 CONSTANTS
   Accounts <- AllAccounts
   Thorough = FALSE
-VIEW RoleView
+VIEW ReplayView
 INVARIANTS HistoryOK ModuleAccountEmpty ThresholdInv
-PROPERTIES SpecSatisfiesLenses StepwiseIsRun RoleLifecycle
+PROPERTIES SpecSatisfiesLenses StepwiseIsRun UsedMonotone FailedFree
 ACTION_CONSTRAINT EmitEdge
 CHECK_DEADLOCK FALSE
